@@ -11,7 +11,7 @@ from mc.core.util import call, diff, exc_name
 
 ID = "C04"
 LEVEL = "model_checking"
-REQUIRED_OUTCOMES = ["cycle:ok", "reloaded-start:ok", "has:child-optional", "has:child-variant", "has:child-addon",
+REQUIRED_OUTCOMES = ["cycle:ok", "reloaded-start:ok", "edit-after-write:ok", "has:child-optional", "has:child-variant", "has:child-addon",
                      "has:depth3", "has:dashed-top-uid", "has:src-tree", "has:layered", "has:media", "has:mixed-case-option",
                      "discinfo:ok"]
 
@@ -67,6 +67,13 @@ def eval_case(case):
     try:
         if case["mode"] == "scratch":
             obj = B.build(spec)
+        elif case["mode"] == "live":
+            # the parent state is built AND WRITTEN, then the last edit is made on that same live object
+            parent = spec_of({"seed": case["seed"], "edits": case["edits"][:-1]})
+            obj = B.build(parent)
+            B.dumps(obj)
+            obj.validate()
+            B.apply_obj(obj, case["edits"][-1])
         else:
             parent = spec_of({"seed": case["seed"], "edits": case["edits"][:-1]})
             obj = pt.TreeInfo()
@@ -160,14 +167,14 @@ def run_unit(unit, acc):
         return
 
     def visit(spec, trace, parent, last):
-        for mode in ("scratch", "reloaded"):
-            if mode == "reloaded" and last is None:
+        for mode in ("scratch", "reloaded", "live"):
+            if mode != "scratch" and last is None:
                 continue
             case = {"kind": "tree", "seed": trace[0], "edits": trace[1:], "mode": mode}
             o = eval_case(case)
             acc.ev()
             acc.trace()
-            tag = "cycle" if mode == "scratch" else "reloaded-start"
+            tag = {"scratch": "cycle", "reloaded": "reloaded-start", "live": "edit-after-write"}[mode]
             if o["status"] == "refused":
                 acc.outcome(tag + ":refused")
                 continue
